@@ -1465,7 +1465,7 @@ _DEFAULT_IDNA_SIZE = 256
 _DEFAULT_ENCODE_SIZE = 512
 
 
-@lru_cache(_DEFAULT_IDNA_SIZE)
+@lru_cache(_DEFAULT_IDNA_SIZE, typed=True)
 def _idna_decode(raw: str) -> str:
     try:
         return idna.decode(raw.encode("ascii"))
@@ -1473,7 +1473,7 @@ def _idna_decode(raw: str) -> str:
         return raw.encode("ascii").decode("idna")
 
 
-@lru_cache(_DEFAULT_IDNA_SIZE)
+@lru_cache(_DEFAULT_IDNA_SIZE, typed=True)
 def _idna_encode(host: str) -> str:
     try:
         return idna.encode(host, uts46=True).decode("ascii")
@@ -1481,7 +1481,7 @@ def _idna_encode(host: str) -> str:
         return host.encode("idna").decode("ascii")
 
 
-@lru_cache(_DEFAULT_ENCODE_SIZE)
+@lru_cache(_DEFAULT_ENCODE_SIZE, typed=True)
 def _encode_host(host: str, validate_host: bool) -> str:
     """Encode host part of URL."""
     # If the host ends with a digit or contains a colon, its likely
@@ -1614,6 +1614,6 @@ def cache_configure(
 
     if TYPE_CHECKING:
         assert not isinstance(encode_host_size, object)
-    _encode_host = lru_cache(encode_host_size)(_encode_host.__wrapped__)
-    _idna_decode = lru_cache(idna_decode_size)(_idna_decode.__wrapped__)
-    _idna_encode = lru_cache(idna_encode_size)(_idna_encode.__wrapped__)
+    _encode_host = lru_cache(encode_host_size, typed=True)(_encode_host.__wrapped__)
+    _idna_decode = lru_cache(idna_decode_size, typed=True)(_idna_decode.__wrapped__)
+    _idna_encode = lru_cache(idna_encode_size, typed=True)(_idna_encode.__wrapped__)
